@@ -432,3 +432,768 @@ Section TableProofs.
   Qed.
 
 End TableProofs.
+
+(* ------------------------------------------------------------------ C13: linearizability *)
+
+Section LinProofs.
+  Variables Sec Call St Loc Ret : Type.
+  Variable mode_of : Sec -> mode.
+  Variable body_of : Sec -> list (Loc -> St -> Loc * St).
+  Variable impl : Call -> list Sec.
+  Variable loc0 : Call -> Loc.
+  Variable ret_of : Call -> Loc -> Ret.
+  Variable seq_step : St -> Call -> St * Ret.
+  Variable s_init : St.
+
+  Notation config := (config Sec Call St Loc Ret).
+  Notation step_by := (step_by Sec Call St Loc Ret mode_of body_of impl loc0 ret_of).
+  Notation reachable := (reachable Sec Call St Loc Ret mode_of body_of impl loc0 ret_of).
+  Notation inside := (inside Sec Call St Loc Ret).
+  Notation init := (init Sec Call St Loc Ret).
+  Notation run := (run St Loc).
+  Notation pure_micro := (pure_micro St Loc).
+  Notation atomic := (atomic_call Sec Call St Loc Ret mode_of body_of impl loc0 ret_of seq_step).
+  Notation spec_run := (spec_run Call St Ret seq_step s_init).
+  Notation outs := (outs Call St Ret seq_step s_init).
+  Notation ids := (ids Call).
+  Notation id_of := (id_of Call).
+  Notation call_of := (call_of Call).
+  Notation returns_before := (returns_before Call Ret).
+  Notation placed_before := (placed_before Call).
+  Notation lock_inv := (lock_inv Sec Call St Loc Ret mode_of).
+
+  Lemma run_pure : forall k l st, Forall pure_micro k -> snd (run k l st) = st.
+  Proof.
+    induction k as [|m k IH]; intros l st H; cbn; auto.
+    inversion H; subst. destruct (m l st) as [l' st'] eqn:E.
+    rewrite IH; auto. specialize (H2 l st). now rewrite E in H2.
+  Qed.
+
+  Lemma run_cons : forall m k l st, run (m :: k) l st = run k (fst (m l st)) (snd (m l st)).
+  Proof. intros. cbn. now destruct (m l st). Qed.
+
+  Lemma outs_cons : forall x y L, In x (outs L) -> In x (outs (y :: L)).
+  Proof. intros. cbn. now right. Qed.
+
+  Lemma outs_mid : forall L1 x L2,
+    In (id_of x, snd (seq_step (spec_run L2) (call_of x))) (outs (L1 ++ x :: L2)).
+  Proof.
+    induction L1 as [|y L1 IH]; intros x L2; cbn.
+    - now left.
+    - right. apply IH.
+  Qed.
+
+  Lemma outs_ids : forall L i r, In (i, r) (outs L) -> In i (ids L).
+  Proof.
+    induction L as [|x L IH]; intros i r H; cbn in *; [contradiction|].
+    destruct H as [H | H].
+    - inversion H; subst. now left.
+    - right. eapply IH; eauto.
+  Qed.
+
+  Lemma in_ids : forall L t n, In (t, n) (ids L) -> exists ca, In (t, n, ca) L.
+  Proof.
+    intros L t n H. unfold Sync.ids in H. apply in_map_iff in H.
+    destruct H as (((t', n'), ca) & E & H). unfold Sync.id_of in E. cbn in E. inversion E; subst. eauto.
+  Qed.
+
+  Lemma ids_in : forall L t n ca, In (t, n, ca) L -> In (t, n) (ids L).
+  Proof. intros L t n ca H. unfold Sync.ids. apply in_map_iff. exists (t, n, ca). auto. Qed.
+
+  (* a read-only atomic call does not change the sequential state *)
+  Lemma atomic_R_pure : forall ca s st, atomic ca -> impl ca = [s] -> mode_of s = R -> fst (seq_step st ca) = st.
+  Proof.
+    intros ca s st (s' & Hi & Hm & Hs) E M. rewrite Hi in E. inversion E; subst s'.
+    destruct Hm as [Hm | (_ & Hp)]; [congruence|].
+    destruct (Hs st) as (H1 & _). rewrite <- H1. now apply run_pure.
+  Qed.
+
+  Definition post (c : config) (t : tid) : Prop :=
+    match th c t with
+    | TIn _ _ _ _ _ _ _ => True
+    | TCall _ _ [] _ => True
+    | _ => False
+    end.
+
+  (* per-thread invariant *)
+  Definition tinv (c : config) (t : tid) : Prop :=
+    match th c t with
+    | TIdle todo => Forall atomic todo
+    | TCall ca l secs todo =>
+        atomic ca /\ Forall atomic todo /\ In (EInv t (cnt c t) ca) (tr c) /\
+        ((secs = impl ca /\ l = loc0 ca) \/
+         (secs = [] /\ In ((t, cnt c t), ret_of ca l) (outs (glin c))))
+    | TIn ca l s k s0 secs todo =>
+        atomic ca /\ Forall atomic todo /\ In (EInv t (cnt c t) ca) (tr c) /\
+        impl ca = [s] /\ secs = [] /\
+        run k l (sh c) = run (body_of s) (loc0 ca) s0 /\
+        match mode_of s with
+        | W => exists L', glin c = (t, cnt c t, ca) :: L' /\ s0 = spec_run L'
+        | R => Forall pure_micro k /\ sh c = s0 /\
+               exists L1 L2, glin c = L1 ++ (t, cnt c t, ca) :: L2 /\ spec_run L2 = s0
+        | NoLock => False
+        end
+    end.
+
+  Record Inv (c : config) : Prop := {
+    inv_lock : lock_inv c;
+    inv_thr : forall t, tinv c t;
+    inv_state : wr c = None -> sh c = spec_run (glin c);
+    inv_ret : forall t n r, In (ERet t n r) (tr c) -> In ((t, n), r) (outs (glin c));
+    inv_inv : forall t n ca, In (t, n, ca) (glin c) -> In (EInv t n ca) (tr c);
+    inv_nodup : NoDup (ids (glin c));
+    inv_ids : forall t n ca, In (t, n, ca) (glin c) -> n < cnt c t \/ (n = cnt c t /\ post c t);
+    inv_rt : forall a b, returns_before (tr c) a b -> In b (ids (glin c)) -> placed_before (glin c) a b
+  }.
+
+  Lemma placed_before_cons : forall L x a b, placed_before L a b -> placed_before (x :: L) a b.
+  Proof.
+    intros L x a b (l1 & l2 & cb & E & H). exists (x :: l1), l2, cb. split; auto. cbn. now rewrite E.
+  Qed.
+
+  Lemma returns_before_cons : forall h e a b,
+    returns_before (e :: h) a b ->
+    returns_before h a b \/ (exists cb, e = EInv (fst b) (snd b) cb /\ exists r, In (ERet (fst a) (snd a) r) h).
+  Proof.
+    intros h e a b (l1 & l2 & r & cb & E & H). destruct l1 as [|e' l1]; cbn in E; inversion E; subst.
+    - right. eauto.
+    - left. exists l1, l2, r, cb. auto.
+  Qed.
+
+  Ltac rw_view :=
+    repeat match goal with
+    | H : sh ?c' = _ |- _ => rewrite H in *; clear H
+    | H : wr ?c' = _ |- _ => rewrite H in *; clear H
+    | H : rd ?c' = _ |- _ => rewrite H in *; clear H
+    | H : cnt ?c' = _ |- _ => rewrite H in *; clear H
+    | H : glin ?c' = _ |- _ => rewrite H in *; clear H
+    | H : tr ?c' = _ |- _ => rewrite H in *; clear H
+    end.
+
+  Lemma post_other : forall (c c' : config) t x u,
+    th c' = upd (th c) t x -> u <> t -> (post c' u <-> post c u).
+  Proof. intros c c' t x u H N. unfold post. rewrite H, upd_other by auto. tauto. Qed.
+
+  (* ---------------- invoke *)
+  Lemma Inv_invoke : forall t (c c' : config) ca todo,
+    Inv c ->
+    th c t = TIdle (ca :: todo) ->
+    sh c' = sh c -> wr c' = wr c -> rd c' = rd c -> cnt c' = cnt c -> glin c' = glin c ->
+    th c' = upd (th c) t (TCall ca (loc0 ca) (impl ca) todo) ->
+    tr c' = EInv t (cnt c t) ca :: tr c ->
+    step_by t c = Some c' ->
+    Inv c'.
+  Proof.
+    intros t c c' ca todo I E Hsh Hwr Hrd Hcnt Hgl Hth Htr Hstep.
+    pose proof (inv_thr c I t) as Tt. unfold tinv in Tt. rewrite E in Tt.
+    constructor.
+    - eapply lock_inv_step; eauto. apply (inv_lock c I).
+    - intro u. unfold tinv. rewrite Hth, Hsh, Hcnt, Hgl, Htr.
+      destruct (Nat.eq_dec u t) as [->|N].
+      + rewrite upd_same. inversion Tt; subst. repeat split; auto. now left.
+      + rewrite upd_other by auto. pose proof (inv_thr c I u) as Tu. unfold tinv in Tu.
+        destruct (th c u) as [td | cu lu su td | cu lu su ku s0u secu td]; auto.
+        * destruct Tu as (A & B & C & D). repeat split; auto. now right.
+        * destruct Tu as (A & B & C & D). repeat split; auto; try tauto. now right.
+    - rewrite Hwr, Hsh, Hgl. apply (inv_state c I).
+    - intros u n r H. rewrite Htr in H. rewrite Hgl. destruct H as [H | H]; [discriminate|]. eapply inv_ret; eauto.
+    - intros u n cu H. rewrite Hgl in H. rewrite Htr. right. eapply inv_inv; eauto.
+    - rewrite Hgl. apply (inv_nodup c I).
+    - intros u n cu H. rewrite Hgl in H. rewrite Hcnt.
+      destruct (inv_ids c I _ _ _ H) as [A | (A & B)]; auto.
+      destruct (Nat.eq_dec u t) as [->|N].
+      + unfold post in B. rewrite E in B. contradiction.
+      + right. split; auto. eapply post_other; eauto.
+    - intros a b H Hb. rewrite Hgl in *. rewrite Htr in H.
+      apply returns_before_cons in H. destruct H as [H | (cb & Eq & r & H)].
+      + eapply inv_rt; eauto.
+      + exfalso. inversion Eq; subst. destruct b as (bt, bn). cbn in *. subst.
+        apply in_ids in Hb. destruct Hb as (cb' & Hb).
+        destruct (inv_ids c I _ _ _ Hb) as [A | (_ & B)]; [lia|].
+        unfold post in B. rewrite E in B. contradiction.
+  Qed.
+
+  Lemma atomic_impl_nonempty : forall ca, atomic ca -> impl ca <> [].
+  Proof. intros ca (s & Hi & _) E. rewrite Hi in E. discriminate. Qed.
+
+  (* ---------------- return *)
+  Lemma Inv_return : forall t (c c' : config) ca l todo,
+    Inv c ->
+    th c t = TCall ca l [] todo ->
+    sh c' = sh c -> wr c' = wr c -> rd c' = rd c -> glin c' = glin c ->
+    cnt c' = upd (cnt c) t (S (cnt c t)) ->
+    th c' = upd (th c) t (TIdle todo) ->
+    tr c' = ERet t (cnt c t) (ret_of ca l) :: tr c ->
+    step_by t c = Some c' ->
+    Inv c'.
+  Proof.
+    intros t c c' ca l todo I E Hsh Hwr Hrd Hgl Hcnt Hth Htr Hstep.
+    pose proof (inv_thr c I t) as Tt. unfold tinv in Tt. rewrite E in Tt.
+    destruct Tt as (At & Ft & It & Dt).
+    assert (Rt : In ((t, cnt c t), ret_of ca l) (outs (glin c))).
+    { destruct Dt as [(D1 & _) | (_ & D2)]; auto. exfalso. eapply atomic_impl_nonempty; eauto. }
+    constructor.
+    - eapply lock_inv_step; eauto. apply (inv_lock c I).
+    - intro u. unfold tinv. rewrite Hth, Hsh, Hcnt, Hgl, Htr.
+      destruct (Nat.eq_dec u t) as [->|N].
+      + rewrite upd_same. auto.
+      + rewrite !upd_other by auto. pose proof (inv_thr c I u) as Tu. unfold tinv in Tu.
+        destruct (th c u) as [td | cu lu su td | cu lu su ku s0u secu td]; auto.
+        * destruct Tu as (A & B & C & D). repeat split; auto. now right.
+        * destruct Tu as (A & B & C & D). repeat split; auto; try tauto. now right.
+    - rewrite Hwr, Hsh, Hgl. apply (inv_state c I).
+    - intros u n r H. rewrite Htr in H. rewrite Hgl. destruct H as [H | H].
+      + inversion H; subst. auto.
+      + eapply inv_ret; eauto.
+    - intros u n cu H. rewrite Hgl in H. rewrite Htr. right. eapply inv_inv; eauto.
+    - rewrite Hgl. apply (inv_nodup c I).
+    - intros u n cu H. rewrite Hgl in H. rewrite Hcnt.
+      destruct (Nat.eq_dec u t) as [->|N].
+      + rewrite upd_same. left. destruct (inv_ids c I _ _ _ H) as [A | (A & B)]; lia.
+      + rewrite upd_other by auto.
+        destruct (inv_ids c I _ _ _ H) as [A | (A & B)]; auto.
+        right. split; auto. eapply post_other; eauto.
+    - intros a b H Hb. rewrite Hgl in *. rewrite Htr in H.
+      apply returns_before_cons in H. destruct H as [H | (cb & Eq & r & H)].
+      + eapply inv_rt; eauto.
+      + discriminate.
+  Qed.
+
+  (* ---------------- micro-step *)
+  Lemma Inv_micro : forall t (c c' : config) ca l s m k s0 secs todo,
+    Inv c ->
+    th c t = TIn ca l s (m :: k) s0 secs todo ->
+    wr c' = wr c -> rd c' = rd c -> cnt c' = cnt c -> tr c' = tr c -> glin c' = glin c ->
+    sh c' = snd (m l (sh c)) ->
+    th c' = upd (th c) t (TIn ca (fst (m l (sh c))) s k s0 secs todo) ->
+    step_by t c = Some c' ->
+    Inv c'.
+  Proof.
+    intros t c c' ca l s m k s0 secs todo I E Hwr Hrd Hcnt Htr Hgl Hsh Hth Hstep.
+    pose proof (inv_thr c I t) as Tt. unfold tinv in Tt. rewrite E in Tt.
+    destruct Tt as (At & Ft & It & Hi & Hs & Hrun & Hmode).
+    destruct (inv_lock c I) as (L1 & L2 & L3).
+    assert (INt : inside c t s) by (repeat eexists; eauto).
+    pose proof (L3 _ _ INt) as L3t.
+    assert (SHR : mode_of s = R -> sh c' = sh c).
+    { intro M. rewrite M in Hmode. destruct Hmode as (Hp & _). inversion Hp; subst. rewrite Hsh. apply H1. }
+    assert (POST : forall u, post c' u <-> post c u).
+    { intro u. unfold post. rewrite Hth. destruct (Nat.eq_dec u t) as [->|N].
+      - rewrite upd_same, E. tauto.
+      - rewrite upd_other by auto. tauto. }
+    constructor.
+    - eapply lock_inv_step; eauto. apply (inv_lock c I).
+    - intro u. unfold tinv. rewrite Hth, Hcnt, Hgl, Htr.
+      destruct (Nat.eq_dec u t) as [->|N].
+      + rewrite upd_same. repeat split; auto.
+        * rewrite <- Hrun, run_cons, Hsh. reflexivity.
+        * destruct (mode_of s) eqn:M; auto.
+          destruct Hmode as (Hp & Hs0 & HL). inversion Hp; subst. repeat split; auto;
+          try (rewrite SHR; auto).
+      + rewrite upd_other by auto. pose proof (inv_thr c I u) as Tu. unfold tinv in Tu.
+        destruct (th c u) as [td | cu lu su td | cu lu su ku s0u secu td] eqn:Eu; auto.
+        assert (INu : inside c u su) by (repeat eexists; eauto).
+        pose proof (L3 _ _ INu) as L3u.
+        destruct (mode_of s) eqn:M.
+        * rewrite SHR; auto.
+        * exfalso. destruct (L1 _ L3t) as (R0 & _).
+          destruct Tu as (_ & _ & _ & _ & _ & _ & Mu).
+          destruct (mode_of su); auto.
+          -- rewrite R0 in L3u. contradiction.
+          -- rewrite L3t in L3u. inversion L3u. congruence.
+        * contradiction.
+    - intro W0. rewrite Hwr in W0. rewrite Hgl.
+      destruct (mode_of s) eqn:M.
+      + rewrite SHR; auto. apply (inv_state c I); auto.
+      + rewrite L3t in W0. discriminate.
+      + contradiction.
+    - intros u n r H. rewrite Htr in H. rewrite Hgl. eapply inv_ret; eauto.
+    - intros u n cu H. rewrite Hgl in H. rewrite Htr. eapply inv_inv; eauto.
+    - rewrite Hgl. apply (inv_nodup c I).
+    - intros u n cu H. rewrite Hgl in H. rewrite Hcnt.
+      destruct (inv_ids c I _ _ _ H) as [A | (A & B)]; auto. right. split; auto. now apply POST.
+    - intros a b H Hb. rewrite Hgl in *. rewrite Htr in H. eapply inv_rt; eauto.
+  Qed.
+
+  (* ---------------- release *)
+  Lemma Inv_release : forall t (c c' : config) ca l s s0 secs todo,
+    Inv c ->
+    th c t = TIn ca l s [] s0 secs todo ->
+    sh c' = sh c -> cnt c' = cnt c -> tr c' = tr c -> glin c' = glin c ->
+    (wr c', rd c') = release Sec Call St Loc Ret (mode_of s) t c ->
+    th c' = upd (th c) t (TCall ca l secs todo) ->
+    step_by t c = Some c' ->
+    Inv c'.
+  Proof.
+    intros t c c' ca l s s0 secs todo I E Hsh Hcnt Htr Hgl Hrel Hth Hstep.
+    pose proof (inv_thr c I t) as Tt. unfold tinv in Tt. rewrite E in Tt.
+    destruct Tt as (At & Ft & It & Hi & Hs & Hrun & Hmode). subst secs.
+    cbn in Hrun.
+    assert (SPEC : sh c = fst (seq_step s0 ca) /\ ret_of ca l = snd (seq_step s0 ca)).
+    { destruct At as (s' & Hi' & _ & Hsp). rewrite Hi in Hi'. inversion Hi'; subst s'.
+      destruct (Hsp s0) as (A & B). rewrite <- Hrun in A, B. cbn in A, B. auto. }
+    destruct SPEC as (SP1 & SP2).
+    assert (OUT : In ((t, cnt c t), ret_of ca l) (outs (glin c))).
+    { destruct (mode_of s) eqn:M.
+      - destruct Hmode as (_ & _ & L1 & L2 & HL & HS). rewrite HL, SP2, <- HS.
+        apply (outs_mid L1 (t, cnt c t, ca) L2).
+      - destruct Hmode as (L' & HL & HS). rewrite HL, SP2, HS. cbn. now left.
+      - contradiction. }
+    assert (POST : forall u, post c u -> post c' u).
+    { intro u. unfold post. rewrite Hth. destruct (Nat.eq_dec u t) as [->|N].
+      - rewrite upd_same, E. tauto.
+      - rewrite upd_other by auto. tauto. }
+    constructor.
+    - eapply lock_inv_step; eauto. apply (inv_lock c I).
+    - intro u. unfold tinv. rewrite Hth, Hsh, Hcnt, Hgl, Htr.
+      destruct (Nat.eq_dec u t) as [->|N].
+      + rewrite upd_same. repeat split; auto.
+      + rewrite upd_other by auto. apply (inv_thr c I u).
+    - intro W0. rewrite Hsh, Hgl. unfold Sync.release in Hrel.
+      destruct (mode_of s) eqn:M.
+      + inversion Hrel as [[Hw Hr]]. rewrite Hw in W0. apply (inv_state c I); auto.
+      + destruct Hmode as (L' & HL & HS). rewrite HL. cbn. rewrite <- HS. unfold Sync.call_of. cbn. auto.
+      + contradiction.
+    - intros u n r H. rewrite Htr in H. rewrite Hgl. eapply inv_ret; eauto.
+    - intros u n cu H. rewrite Hgl in H. rewrite Htr. eapply inv_inv; eauto.
+    - rewrite Hgl. apply (inv_nodup c I).
+    - intros u n cu H. rewrite Hgl in H. rewrite Hcnt.
+      destruct (inv_ids c I _ _ _ H) as [A | (A & B)]; auto.
+    - intros a b H Hb. rewrite Hgl in *. rewrite Htr in H. eapply inv_rt; eauto.
+  Qed.
+
+  Lemma returns_before_ret : forall h a b, returns_before h a b -> exists r, In (ERet (fst a) (snd a) r) h.
+  Proof.
+    intros h a b (l1 & l2 & r & cb & E & H). exists r. rewrite E. apply in_or_app. right. now right.
+  Qed.
+
+  (* ---------------- entering a section *)
+  Lemma Inv_acquire : forall t (c c' : config) ca l s secs todo,
+    Inv c ->
+    th c t = TCall ca l (s :: secs) todo ->
+    can_acquire Sec Call St Loc Ret (mode_of s) c = true ->
+    sh c' = sh c -> cnt c' = cnt c -> tr c' = tr c ->
+    (wr c', rd c') = acquire Sec Call St Loc Ret (mode_of s) t c ->
+    th c' = upd (th c) t (TIn ca l s (body_of s) (sh c) secs todo) ->
+    glin c' = (t, cnt c t, ca) :: glin c ->
+    step_by t c = Some c' ->
+    Inv c'.
+  Proof.
+    intros t c c' ca l s secs todo I E CA Hsh Hcnt Htr Hacq Hth Hgl Hstep.
+    pose proof (inv_thr c I t) as Tt. unfold tinv in Tt. rewrite E in Tt.
+    destruct Tt as (At & Ft & It & Dt).
+    destruct Dt as [(D1 & D2) | (D1 & _)]; [|discriminate].
+    pose proof At as At'. destruct At' as (s' & Hi & Hm & Hsp).
+    rewrite Hi in D1. inversion D1; subst s' secs. subst l. clear D1.
+    destruct (inv_lock c I) as (L1 & L2 & L3).
+    assert (W0 : wr c = None).
+    { unfold Sync.can_acquire in CA. destruct Hm as [Hm | (Hm & _)]; rewrite Hm in CA; destruct (wr c); auto; discriminate. }
+    assert (SH : sh c = spec_run (glin c)) by (apply (inv_state c I); auto).
+    assert (FRESH : ~ In (t, cnt c t) (ids (glin c))).
+    { intro H. apply in_ids in H. destruct H as (ca' & H).
+      destruct (inv_ids c I _ _ _ H) as [A | (_ & B)]; [lia|]. unfold post in B. rewrite E in B. contradiction. }
+    assert (OTHER : forall u, u <> t -> tinv c' u).
+    { intros u N. unfold tinv. rewrite Hth, Hsh, Hcnt, Hgl, Htr. rewrite upd_other by auto.
+      pose proof (inv_thr c I u) as Tu. unfold tinv in Tu.
+      destruct (th c u) as [td | cu lu su td | cu lu su ku s0u secu td] eqn:Eu; auto.
+      - destruct Tu as (A & B & C & D). repeat split; auto.
+        destruct D as [D | (D & D')]; auto. right. split; auto. now apply outs_cons.
+      - destruct Tu as (A & B & C & D & D' & F & G). repeat split; auto.
+        assert (INu : inside c u su) by (repeat eexists; eauto).
+        pose proof (L3 _ _ INu) as L3u.
+        destruct (mode_of su) eqn:Mu; auto.
+        + destruct G as (G1 & G2 & La & Lb & G3 & G4). repeat split; auto.
+          exists ((t, cnt c t, ca) :: La), Lb. split; auto. cbn. now rewrite G3.
+        + rewrite W0 in L3u. discriminate. }
+    constructor.
+    - eapply lock_inv_step; eauto. apply (inv_lock c I).
+    - intro u. destruct (Nat.eq_dec u t) as [->|N]; [|now apply OTHER].
+      unfold tinv. rewrite Hth, Hsh, Hcnt, Hgl, Htr, upd_same. repeat split; auto.
+      destruct Hm as [Hm | (Hm & Hp)]; rewrite Hm.
+      + exists (glin c). auto.
+      + repeat split; auto. exists [], (glin c). auto.
+    - intro W1. rewrite Hsh, Hgl. cbn. unfold Sync.call_of. cbn.
+      unfold Sync.acquire in Hacq.
+      destruct Hm as [Hm | (Hm & Hp)]; rewrite Hm in Hacq; inversion Hacq as [[Hw Hr]].
+      + rewrite Hw in W1. discriminate.
+      + rewrite <- SH. symmetry. eapply atomic_R_pure; eauto.
+    - intros u n r H. rewrite Htr in H. rewrite Hgl. apply outs_cons. eapply inv_ret; eauto.
+    - intros u n cu H. rewrite Hgl in H. rewrite Htr. destruct H as [H | H].
+      + inversion H; subst. auto.
+      + eapply inv_inv; eauto.
+    - rewrite Hgl. cbn. constructor; auto. apply (inv_nodup c I).
+    - intros u n cu H. rewrite Hgl in H. rewrite Hcnt. destruct H as [H | H].
+      + inversion H; subst. right. split; auto. unfold post. now rewrite Hth, upd_same.
+      + destruct (inv_ids c I _ _ _ H) as [A | (A & B)]; auto.
+        destruct (Nat.eq_dec u t) as [->|N].
+        * unfold post in B. rewrite E in B. contradiction.
+        * right. split; auto. eapply post_other; eauto.
+    - intros a b H Hb. rewrite Htr in H. rewrite Hgl in *. cbn in Hb. destruct Hb as [Hb | Hb].
+      + unfold Sync.id_of in Hb. cbn in Hb. subst b.
+        exists [], (glin c), ca. split; auto.
+        destruct (returns_before_ret _ _ _ H) as (r & Hr).
+        pose proof (inv_ret c I _ _ _ Hr) as Ho. apply outs_ids in Ho. now destruct a.
+      + apply placed_before_cons. eapply inv_rt; eauto.
+  Qed.
+
+  Lemma Inv_step : forall t (c c' : config), Inv c -> step_by t c = Some c' -> Inv c'.
+  Proof.
+    intros t c c' I H. pose proof H as H'. apply step_by_view in H.
+    destruct H.
+    - eapply Inv_invoke; eauto.
+    - eapply Inv_return; eauto.
+    - eapply Inv_acquire; eauto.
+    - eapply Inv_micro; eauto.
+    - eapply Inv_release; eauto.
+  Qed.
+
+  Variable prog : tid -> list Call.
+  Hypothesis prog_atomic : forall t, Forall atomic (prog t).
+
+  Lemma Inv_init : Inv (init s_init prog).
+  Proof.
+    constructor; cbn.
+    - apply lock_inv_init.
+    - intro t. unfold tinv. cbn. apply prog_atomic.
+    - auto.
+    - intros; contradiction.
+    - intros; contradiction.
+    - constructor.
+    - intros; contradiction.
+    - intros a b (l1 & l2 & r & cb & E & H). destruct l1; discriminate.
+  Qed.
+
+  Lemma Inv_reachable : forall c, reachable (init s_init prog) c -> Inv c.
+  Proof.
+    intros c H. induction H.
+    - apply Inv_init.
+    - destruct H0 as (t & Ht). eapply Inv_step; eauto.
+  Qed.
+
+  (* THE C13 theorem: if every call of the program is one section -- a write section, or a read
+     section that never modifies the abstract state -- whose body, run alone, does what the
+     sequential specification does, then every history the machine can produce (any number of
+     threads, any schedule, micro-steps interleaved arbitrarily) is linearizable, and the order
+     in which the calls entered their sections is a linearization. *)
+  Theorem atomic_calls_linearizable : forall c,
+    reachable (init s_init prog) c ->
+    linearization Call St Ret seq_step s_init (tr c) (glin c).
+  Proof.
+    intros c H. apply Inv_reachable in H. unfold Sync.linearization. repeat split.
+    - apply (inv_nodup c H).
+    - apply (inv_inv c H).
+    - apply (inv_ret c H).
+    - apply (inv_rt c H).
+  Qed.
+
+  (* ... and while no writer is inside, the shared state IS the state after that sequential order:
+     nothing completed is lost, nothing that no order could produce is visible *)
+  Theorem quiescent_state_is_sequential : forall c,
+    reachable (init s_init prog) c -> wr c = None -> sh c = spec_run (glin c).
+  Proof. intros c H. apply Inv_reachable in H. apply (inv_state c H). Qed.
+
+End LinProofs.
+
+(* ------------------------------------------------------------------ schedules are reachable *)
+
+Section Sched.
+  Variables Sec Call St Loc Ret : Type.
+  Variable mode_of : Sec -> mode.
+  Variable body_of : Sec -> list (Loc -> St -> Loc * St).
+  Variable impl : Call -> list Sec.
+  Variable loc0 : Call -> Loc.
+  Variable ret_of : Call -> Loc -> Ret.
+
+  Lemma run_sched_reachable : forall sched c0 c c',
+    reachable Sec Call St Loc Ret mode_of body_of impl loc0 ret_of c0 c ->
+    run_sched Sec Call St Loc Ret mode_of body_of impl loc0 ret_of sched c = Some c' ->
+    reachable Sec Call St Loc Ret mode_of body_of impl loc0 ret_of c0 c'.
+  Proof.
+    induction sched as [|t rest IH]; intros c0 c c' HR H; cbn in H.
+    - inversion H; subst. exact HR.
+    - destruct (step_by Sec Call St Loc Ret mode_of body_of impl loc0 ret_of t c) as [c1|] eqn:E; [|discriminate].
+      eapply IH; [|exact H]. eapply reach_step; eauto. exists t. exact E.
+  Qed.
+End Sched.
+
+(* ------------------------------------------------------------------ a concrete object
+
+   The smallest store that shows everything: one rule X; the state is (X in memory, X in the
+   adapter).  AddPolicy / RemovePolicy are read-modify-write in TWO micro-steps (so they are only
+   atomic thanks to the lock), HasPolicy reads, LoadPolicy copies the adapter's view into memory
+   -- once as one write section (CLoad) and once as SyncedEnforcer.LoadPolicy really does it:
+   snapshot under the read lock, apply under the write lock (CLoad2). *)
+
+Inductive xcall := CAdd | CRemove | CHas | CLoad | CLoad2.
+Inductive xsec := SAdd | SRemove | SHas | SLoad | SLoad2a | SLoad2b.
+Definition xst := (bool * bool)%type.     (* (in memory, in adapter) *)
+Definition xloc := (bool * bool)%type.    (* (snapshot, result) *)
+
+Definition x_mode (s : xsec) : mode :=
+  match s with SHas => R | SLoad2a => R | _ => W end.
+
+Definition x_body (s : xsec) : list (xloc -> xst -> xloc * xst) :=
+  match s with
+  | SAdd => [fun l st => ((fst st, negb (fst st)), st); fun l st => (l, (true, true))]
+  | SRemove => [fun l st => ((fst st, fst st), st); fun l st => (l, (false, false))]
+  | SHas => [fun l st => ((fst st, fst st), st)]
+  | SLoad => [fun l st => ((snd st, true), st); fun l st => (l, (fst l, snd st))]
+  | SLoad2a => [fun l st => ((snd st, true), st)]
+  | SLoad2b => [fun l st => (l, (fst l, snd st))]
+  end.
+
+Definition x_impl (c : xcall) : list xsec :=
+  match c with
+  | CAdd => [SAdd] | CRemove => [SRemove] | CHas => [SHas] | CLoad => [SLoad]
+  | CLoad2 => [SLoad2a; SLoad2b]
+  end.
+
+Definition x_loc0 (c : xcall) : xloc := (false, false).
+Definition x_ret (c : xcall) (l : xloc) : bool := snd l.
+
+(* the sequential specification *)
+Definition x_seq (st : xst) (c : xcall) : xst * bool :=
+  match c with
+  | CAdd => ((true, true), negb (fst st))
+  | CRemove => ((false, false), fst st)
+  | CHas => (st, fst st)
+  | CLoad | CLoad2 => ((snd st, snd st), true)
+  end.
+
+Notation x_atomic := (atomic_call xsec xcall xst xloc bool x_mode x_body x_impl x_loc0 x_ret x_seq).
+Notation x_config := (config xsec xcall xst xloc bool).
+Notation x_run_sched := (run_sched xsec xcall xst xloc bool x_mode x_body x_impl x_loc0 x_ret).
+Notation x_init := (init xsec xcall xst xloc bool).
+Notation x_reachable := (reachable xsec xcall xst xloc bool x_mode x_body x_impl x_loc0 x_ret).
+
+Lemma x_atomic_add : x_atomic CAdd.
+Proof. exists SAdd. repeat split; auto. Qed.
+Lemma x_atomic_remove : x_atomic CRemove.
+Proof. exists SRemove. repeat split; auto. Qed.
+Lemma x_atomic_has : x_atomic CHas.
+Proof.
+  exists SHas. split; auto. split.
+  - right. split; auto. constructor; [|constructor]. intros l st. reflexivity.
+  - intros st. split; reflexivity.
+Qed.
+Lemma x_atomic_load : x_atomic CLoad.
+Proof. exists SLoad. repeat split; auto. Qed.
+
+(* the two-phase LoadPolicy is not an atomic call *)
+Lemma x_load2_not_atomic : ~ x_atomic CLoad2.
+Proof. intros (s & H & _). discriminate. Qed.
+
+(* non-vacuity of the linearizability theorem: three threads, micro-steps really interleaved *)
+Definition x_prog (t : tid) : list xcall :=
+  match t with 0 => [CAdd; CHas] | 1 => [CHas; CRemove] | 2 => [CLoad] | _ => [] end.
+
+Lemma x_prog_atomic : forall t, Forall x_atomic (x_prog t).
+Proof.
+  intros [|[|[|t]]]; cbn; repeat constructor;
+    auto using x_atomic_add, x_atomic_remove, x_atomic_has, x_atomic_load.
+Qed.
+
+Definition x_sched : list tid :=
+  [0; 1; 2; 1; 1; 1; 0; 1; 0; 1; 0; 0; 2; 0; 2; 0; 2; 2; 0; 2; 0; 0; 1; 0; 1; 1; 1; 1].
+
+Lemma x_example_runs :
+  match x_run_sched x_sched (x_init (false, false) x_prog) with
+  | Some c => List.length (tr c) = 10 /\ List.length (glin c) = 5 /\ sh c = (false, false) /\
+              th c 0 = TIdle [] /\ th c 1 = TIdle [] /\ th c 2 = TIdle []
+  | None => False
+  end.
+Proof. vm_compute. repeat split. Qed.
+
+(* F19 in the model: LoadPolicy as two sections loses a concurrent, completed AddPolicy.
+   Schedule: T0 runs phase 1 of LoadPolicy (snapshot of the adapter: no X), T1 runs AddPolicy(X)
+   to completion (memory and adapter have X), T0 runs phase 2 (memory := snapshot).  Everybody has
+   returned; X is in the adapter and not in memory; and NO sequential order of the two calls
+   produces that state: both orders end with X in memory. *)
+Definition f19_prog (t : tid) : list xcall :=
+  match t with 0 => [CLoad2] | 1 => [CAdd] | _ => [] end.
+
+Definition f19_sched : list tid := [0; 0; 0; 0; 1; 1; 1; 1; 1; 1; 0; 0; 0; 0].
+
+Lemma f19_runs :
+  match x_run_sched f19_sched (x_init (false, false) f19_prog) with
+  | Some c => sh c = (false, true) /\ wr c = None /\ th c 0 = TIdle [] /\ th c 1 = TIdle [] /\
+              tr c = [ERet 0 0 true; ERet 1 0 true; EInv 1 0 CAdd; EInv 0 0 CLoad2]
+  | None => False
+  end.
+Proof. vm_compute. repeat split. Qed.
+
+Lemma f19_no_order : forall L : list (tid * nat * xcall),
+  (map (call_of xcall) L = [CLoad2; CAdd] \/ map (call_of xcall) L = [CAdd; CLoad2]) ->
+  spec_run xcall xst bool x_seq (false, false) L = (true, true).
+Proof.
+  intros L [H | H]; destruct L as [|x [|y [|z L]]]; cbn in H; try discriminate;
+    inversion H as [[H1 H2]]; cbn; rewrite H1, H2; reflexivity.
+Qed.
+
+Theorem load_two_phase_refuted :
+  exists c, x_reachable (x_init (false, false) f19_prog) c /\
+            th c 0 = TIdle [] /\ th c 1 = TIdle [] /\ wr c = None /\
+            sh c = (false, true) /\
+            forall L, (map (call_of xcall) L = [CLoad2; CAdd] \/ map (call_of xcall) L = [CAdd; CLoad2]) ->
+                      spec_run xcall xst bool x_seq (false, false) L <> sh c.
+Proof.
+  pose proof f19_runs as H.
+  destruct (x_run_sched f19_sched (x_init (false, false) f19_prog)) as [c|] eqn:E; [|contradiction].
+  destruct H as (H1 & H2 & H3 & H4 & H5).
+  exists c. repeat split; auto.
+  - eapply run_sched_reachable; [apply reach_init | exact E].
+  - intros L HL. rewrite (f19_no_order L HL), H1. discriminate.
+Qed.
+
+(* ------------------------------------------------------------------ auto-load protocol *)
+
+(* With the non-blocking send, a client that has not finished can take a step in EVERY state
+   (reachable or not): StopAutoLoadPolicy and StartAutoLoadPolicy never block. *)
+Theorem stop_never_blocks : forall v s t,
+  v_nonblocking_send v = true -> ~ al_client_done s t -> exists s', al_client_step v t s = Some s'.
+Proof.
+  intros v s t NB ND. unfold al_client_done in ND. unfold al_client_step.
+  destruct (clients s t) as [pc ops].
+  destruct pc; try (destruct ops as [|[|] ops]; [congruence | |]); try (eexists; reflexivity).
+  - destruct (v_cas v), (flag s); eexists; reflexivity.
+  - destruct (flag s); eexists; reflexivity.
+  - rewrite NB. destruct (chan s); eexists; reflexivity.
+Qed.
+
+(* With the blocking send of the pinned tree (F28): Start; then three Stops that all saw the flag
+   set; the first token is consumed by the loader, which exits; the second token fills the
+   buffer; the third sender waits for ever -- total deadlock with an unfinished client. *)
+Definition f28_variant : al_variant := {| v_nonblocking_send := false; v_cas := true; v_drain := true |}.
+
+Definition f28_prog (t : nat) : list al_op :=
+  match t with 0 => [OpStart] | 1 => [OpStop] | 2 => [OpStop] | 3 => [OpStop] | _ => [] end.
+
+Definition f28_sched : list al_actor :=
+  [Client 0; Client 0; Client 0; Client 0;
+   Client 1; Client 1; Client 2; Client 2; Client 3; Client 3;
+   Client 1; Loader 0; Loader 0; Client 2].
+
+Theorem blocking_send_refuted :
+  exists s, al_reachable f28_variant (al_init f28_prog) s /\
+            ~ al_client_done s 3 /\ forall a, al_step_by f28_variant a s = None.
+Proof.
+  assert (R : forall sched s0 s s', al_reachable f28_variant s0 s -> al_run f28_variant sched s = Some s' ->
+                                     al_reachable f28_variant s0 s').
+  { induction sched as [|a rest IH]; intros s0 s s' HR H; cbn in H.
+    - inversion H; subst; auto.
+    - destruct (al_step_by f28_variant a s) eqn:E; [|discriminate]. eapply IH; [|exact H]. eapply al_reach_step; eauto. }
+  destruct (al_run f28_variant f28_sched (al_init f28_prog)) as [s|] eqn:E; [|vm_compute in E; discriminate].
+  exists s. split; [eapply R; [apply al_reach_init | exact E]|].
+  vm_compute in E. inversion E; subst s; clear E. split.
+  - unfold al_client_done. cbn. discriminate.
+  - intros [t | i].
+    + destruct t as [|[|[|[|t]]]]; reflexivity.
+    + destruct i; reflexivity.
+Qed.
+
+(* ------------------------------------------------------------------ C13: tables *)
+
+Lemma mem_str_true : forall x l, mem_str x l = true <-> In x l.
+Proof.
+  intros x l. unfold mem_str. rewrite existsb_exists. split.
+  - intros (y & H & E). apply String.eqb_eq in E. now subst.
+  - intro H. exists x. split; auto. apply String.eqb_refl.
+Qed.
+
+Section TableLin.
+  Variables St Loc Ret : Type.
+  Variable body_of : section -> list (Loc -> St -> Loc * St).
+  Variable loc0 : wrapper -> Loc.
+  Variable ret_of : wrapper -> Loc -> Ret.
+  Variable seq_step : St -> wrapper -> St * Ret.
+  Variable s_init : St.
+  Variable names : list (N * string).
+  Variable ex : list (string * string).
+  Variable T : list wrapper.
+
+  (* [scratch_neutral = true] additionally trusts that the read sections with the F20 signature
+     (temporary roles / g() memo of the default role manager) leave the abstract state alone --
+     true without a role-matching function, FALSE with one (F20) *)
+  Variable scratch_neutral : bool.
+
+  Definition single_section (w : wrapper) : bool :=
+    atomic_wrapper names w || (scratch_neutral && f20_sig names w).
+
+  (* the link between table and code that is trusted (translator + may-write analysis): a wrapper
+     classified as a single section does, run alone, what the single-threaded enforcer does, and
+     if the section is read-locked its steps do not modify the abstract state *)
+  Definition faithful : Prop :=
+    forall w s, In w T -> single_section w = true -> w_sections w = [s] ->
+      (s_mode s = R -> Forall (pure_micro St Loc) (body_of s)) /\
+      forall st, snd (run St Loc (body_of s) (loc0 w) st) = fst (seq_step st w) /\
+                 ret_of w (fst (run St Loc (body_of s) (loc0 w) st)) = snd (seq_step st w).
+
+  Lemma single_section_shape : forall w, single_section w = true ->
+    exists s, w_sections w = [s] /\ (s_mode s = W \/ s_mode s = R).
+  Proof.
+    intros w H. unfold single_section in H. apply orb_true_iff in H. destruct H as [H | H].
+    - unfold atomic_wrapper in H. apply andb_true_iff in H. destruct H as (_ & H).
+      destruct (w_sections w) as [|s [|s' r]]; try discriminate. exists s. split; auto.
+      destruct (s_mode s); auto. discriminate.
+    - apply andb_true_iff in H. destruct H as (_ & H). unfold f20_sig in H.
+      apply andb_true_iff in H. destruct H as (_ & H).
+      destruct (w_sections w) as [|s [|s' r]]; try discriminate. exists s. split; auto.
+      destruct (s_mode s); auto. discriminate.
+  Qed.
+
+  Lemma single_section_atomic : forall w, faithful -> In w T -> single_section w = true ->
+    atomic_call section wrapper St Loc Ret s_mode body_of w_sections loc0 ret_of seq_step w.
+  Proof.
+    intros w F HI HS. destruct (single_section_shape w HS) as (s & E & M).
+    destruct (F w s HI HS E) as (P & Q). exists s. split; auto. split; auto.
+    destruct M as [M | M]; auto.
+  Qed.
+
+  Theorem single_section_linearizable : forall prog,
+    faithful ->
+    (forall t w, In w (prog t) -> In w T /\ single_section w = true) ->
+    forall c, treachable St Loc Ret body_of loc0 ret_of (tinit St Loc Ret s_init prog) c ->
+    linearization wrapper St Ret seq_step s_init (tr c) (glin c).
+  Proof.
+    intros prog F SC c HR.
+    eapply atomic_calls_linearizable; eauto.
+    intro t. apply Forall_forall. intros w Hw. destruct (SC t w Hw) as (A & B).
+    now apply single_section_atomic.
+  Qed.
+
+  (* what lin_ok gives: a wrapper of the table that is neither listed as an exception nor
+     lock-free control API is a single section *)
+  Lemma lin_ok_scope : forall w,
+    lin_ok names ex T = true -> In w T ->
+    excepted ex (w_name w) = false -> mem_str (w_name w) control_api = false ->
+    atomic_wrapper names w = true.
+  Proof.
+    intros w OK HI NE NC. unfold lin_ok in OK. apply andb_true_iff in OK. destruct OK as (OK & _).
+    rewrite forallb_forall in OK. specialize (OK _ HI).
+    apply orb_true_iff in OK. destruct OK as [OK | OK].
+    - apply orb_true_iff in OK. destruct OK as [OK | OK]; auto.
+      unfold control_wrapper in OK. rewrite NC in OK. rewrite andb_false_r in OK. discriminate.
+    - exfalso. unfold exception_ok in OK. apply existsb_exists in OK. destruct OK as (p & Hp & Q).
+      apply andb_true_iff in Q. destruct Q as (Q & _). apply String.eqb_eq in Q.
+      unfold excepted in NE. assert (X : mem_str (w_name w) (map fst ex) = true).
+      { apply mem_str_true. rewrite <- Q. apply in_map. auto. }
+      congruence.
+  Qed.
+
+End TableLin.
+
+(* linearizable for the table MINUS the explicit exception list (and the lock-free control API) *)
+Theorem linearizable_except :
+  forall (St Loc Ret : Type) body_of loc0 ret_of (seq_step : St -> wrapper -> St * Ret) s_init names ex T prog,
+    lin_ok names ex T = true ->
+    faithful St Loc Ret body_of loc0 ret_of seq_step names T false ->
+    (forall t w, In w (prog t) ->
+       In w T /\ excepted ex (w_name w) = false /\ mem_str (w_name w) control_api = false) ->
+    forall c, treachable St Loc Ret body_of loc0 ret_of (tinit St Loc Ret s_init prog) c ->
+    linearization wrapper St Ret seq_step s_init (tr c) (glin c).
+Proof.
+  intros St Loc Ret body_of loc0 ret_of seq_step s_init names ex T prog OK F SC c HR.
+  eapply single_section_linearizable; eauto.
+  intros t w Hw. destruct (SC t w Hw) as (A & B & C). split; auto.
+  unfold single_section. rewrite (lin_ok_scope names ex T w); auto.
+Qed.
